@@ -6,12 +6,16 @@ package drv
 import (
 	"fmt"
 	"math/rand"
+	"os"
+	"path/filepath"
 	"reflect"
 	"sort"
 	"strings"
 	"time"
 
 	"github.com/Flowpack/prunner"
+	"github.com/Flowpack/prunner/store"
+	"github.com/Flowpack/prunner/taskctl"
 
 	"pxverif/core"
 	"pxverif/gen"
@@ -53,6 +57,9 @@ type HistOpts struct {
 	WStopRel      int
 	WRead         int
 	WReload       int  // weight of definition reload operations (C16)
+	WSave         int    // weight of explicit SaveToStore operations (needs StoreDir)
+	StoreDir      string // if set the runner persists to a real JsonDataStore in this directory (wrapped by a recording store)
+	RichVars      bool   // job variables are arbitrary JSON values
 	HTTP          bool // observe (and drive half of the requests) through the real HTTP handler with a valid token
 }
 
@@ -117,6 +124,8 @@ type seqRun struct {
 	removed      []gen.PipeSpec // pipelines removed by a reload (may be re-added)
 	fired        map[string]bool // jobs whose delay was fired by the driver
 	everRemoved  map[string]bool // pipelines that did not remain defined throughout the history
+	rec          *core.RecStore
+	snapDir      string
 }
 
 func (h *HistResult) sit(prop, s string) {
@@ -173,13 +182,37 @@ func RunHistory(seed int64, o HistOpts) *HistResult {
 	r := rand.New(rand.NewSource(seed))
 	res := &HistResult{Seed: seed, Situations: map[string]map[string]struct{}{}, Evaluations: map[string]int{}}
 	specs := GenSpecs(r, o)
-	sys, err := core.NewSys(gen.BuildDefs(specs), nil, nil)
+	var rec *core.RecStore
+	var st store.DataStore
+	var outStore taskctl.OutputStore
+	snapDir := ""
+	if o.StoreDir != "" {
+		dataDir := filepath.Join(o.StoreDir, fmt.Sprintf("data-%d", seed))
+		snapDir = filepath.Join(o.StoreDir, fmt.Sprintf("snaps-%d", seed))
+		_ = os.MkdirAll(snapDir, 0o755)
+		defer os.RemoveAll(dataDir)
+		defer os.RemoveAll(snapDir)
+		js, err := store.NewJSONDataStore(dataDir)
+		if err != nil {
+			res.Inconclusive = err.Error()
+			return res
+		}
+		rec = &core.RecStore{Inner: js}
+		rec.OnSave = func(n int) {
+			if b, err := os.ReadFile(filepath.Join(dataDir, "data.json")); err == nil {
+				_ = os.WriteFile(filepath.Join(snapDir, fmt.Sprintf("snap-%d.json", n)), b, 0o644)
+			}
+		}
+		st = rec
+		outStore = core.NewMemOutputStore()
+	}
+	sys, err := core.NewSys(gen.BuildDefs(specs), st, outStore)
 	if err != nil {
 		res.Inconclusive = "NewSys: " + err.Error()
 		return res
 	}
 	defer sys.Close()
-	q := &seqRun{o: o, r: r, sys: sys, m: model.New(gen.ModelCfg(specs)), specs: specs, byID: map[string]*JobRec{}, res: res}
+	q := &seqRun{o: o, r: r, sys: sys, m: model.New(gen.ModelCfg(specs)), specs: specs, byID: map[string]*JobRec{}, res: res, rec: rec, snapDir: snapDir}
 	for _, s := range specs {
 		q.journal("pipeline %s: %s failfast=%v tasks=%v deps=%v cyclic=%v", s.Name, classOf(s), !s.Def.ContinueRunningTasksAfterFailure, s.Graph.Names, s.Graph.Deps, s.Graph.Cyclic)
 	}
@@ -194,6 +227,9 @@ func RunHistory(seed int64, o HistOpts) *HistResult {
 		q.drain()
 	}
 	q.offline()
+	if rec != nil && !q.dead {
+		q.checkRestarts()
+	}
 	res.Ops = q.step - 1
 	res.Jobs = len(q.jobs)
 	res.Events = sys.Log.Len()
@@ -246,6 +282,7 @@ const (
 	opStopRel
 	opRead
 	opReload
+	opSave
 )
 
 func (q *seqRun) doOp() {
@@ -271,6 +308,9 @@ func (q *seqRun) doOp() {
 		}
 	}
 	w := map[opKind]int{opSchedule: q.o.WSchedule, opRead: q.o.WRead, opReload: q.o.WReload}
+	if q.rec != nil {
+		w[opSave] = q.o.WSave
+	}
 	if len(runningTasks) > 0 {
 		w[opFinish] = q.o.WFinish
 	}
@@ -291,7 +331,7 @@ func (q *seqRun) doOp() {
 	}
 	pick := q.r.Intn(total)
 	var op opKind
-	for _, k := range []opKind{opSchedule, opFinish, opCancel, opFire, opStopRel, opRead, opReload} {
+	for _, k := range []opKind{opSchedule, opFinish, opCancel, opFire, opStopRel, opRead, opReload, opSave} {
 		if pick < w[k] {
 			op = k
 			break
@@ -337,6 +377,10 @@ func (q *seqRun) doOp() {
 		q.settle(nil)
 	case opReload:
 		q.opReload()
+	case opSave:
+		q.journal("save")
+		q.sys.Save(0)
+		q.settle(nil)
 	}
 }
 
@@ -424,6 +468,12 @@ func (q *seqRun) opSchedule() {
 	p := spec.Name
 	badVar := q.r.Float64() < q.o.BadVarProb
 	vars := map[string]interface{}{"n": float64(len(q.jobs) + 1), "tag": fmt.Sprintf("v%d", q.r.Intn(1000))}
+	if q.o.RichVars {
+		vars = gen.RandVars(q.r)
+		if badVar && vars == nil {
+			vars = map[string]interface{}{}
+		}
+	}
 	if badVar {
 		vars["__jobID"] = "00000000-0000-0000-0000-000000000000"
 	}
